@@ -62,6 +62,8 @@ static Skinny128ParallelECBVtable_t const skinny128_parallel_ecb_vec256 = {
 int skinny128_parallel_ecb_init(Skinny128ParallelECB_t *ecb)
 {
     Skinny128Key_t *ctx;
+    if (!ecb)
+        return 0;
     if ((ctx = calloc(1, sizeof(Skinny128Key_t))) == NULL)
         return 0;
     ecb->vtable = 0;
